@@ -18,7 +18,7 @@ macro_rules! n16 {
     };
 }
 /// (the last two are 264 and 1032 characters long: environment variable names have no length limit to speak of)
-pub const NAMES: [&str; 14] = ["Q", "z", "LvA", "LvAB", "_lvx", "lv.1", "élv1", "LvZ9", "Lv\u{663}x", "Lv\u{b2}", "\u{2167}Lv", "\u{663}", concat!("Lv_long_", n16!(n16!("n"))), concat!("Lv_LONG_", n16!(n16!("NnNn")))];
+pub const NAMES: [&str; 16] = ["Q", "z", "LvA", "LvAB", "_lvx", "lv.1", "Lv_mid.dle.x", "LvLong_name.with.dots", "élv1", "LvZ9", "Lv\u{663}x", "Lv\u{b2}", "\u{2167}Lv", "\u{663}", concat!("Lv_long_", n16!(n16!("n"))), concat!("Lv_LONG_", n16!(n16!("NnNn")))];
 const VALUES: [&str; 16] = ["val", "", "{", "}", "ENV{LvAB}", "LvAB}", "sub/dir", "ü", "x y", "ENV{LvA}{", "/abs/x", "/", "AB", "A", "B}", "Z9}"];
 const LITERALS: [&str; 14] = ["a", "log", "é", " ", "-", ".", "_", "$", "{", "}", "$ENV", "$ENV{", "ENV{", "$$"];
 const MALFORMED: [&str; 10] = ["$ENV{}", "$ENV{.a}", "$ENV{-a}", "$ENV{$ENV{LvA}}", "$ENV{Lv-A}", "$ENV{Lv A}", "$ENV{Lv$A}", "$ENV{LvA", "$ENV{LvA/x}", "$ENV{ }"];
@@ -57,6 +57,10 @@ fn install(vars: &[Option<String>]) {
         std::env::set_var("LV_NOT_UNICODE_VALUE", std::ffi::OsStr::from_bytes(b"caf\xe9/\xff"));
         std::env::set_var(std::ffi::OsStr::from_bytes(b"LV_N\xffT_UNICODE_NAME"), "x");
     }
+    // variables whose names are not names a reference can have (leading '.', inner '-'): references spelled with them
+    // are malformed and stay as they are, whether or not such variables exist
+    std::env::set_var(".a", "dot-a-value");
+    std::env::set_var("Lv-A", "dash-value");
     for (i, n) in NAMES.iter().enumerate() {
         match vars.get(i).cloned().flatten() {
             Some(v) => std::env::set_var(n, v),
